@@ -108,6 +108,21 @@ M = {
     "journal-ownership-before-state-test": ("optuna/storages/journal/_storage.py",
         "        state = TrialState(log[\"state\"])\n        if state == self._trials[trial_id].state and state == TrialState.RUNNING:",
         "        state = TrialState(log[\"state\"])\n        if state == TrialState.RUNNING and self._is_issued_by_this_worker(log):\n            self._worker_id_to_owned_trial_id[self.worker_id] = trial_id\n            return None if state == self._trials[trial_id].state else self._trials.__setitem__(trial_id, (lambda t: (setattr(t, 'state', state), t)[1])(copy.copy(self._trials[trial_id])))\n        if state == self._trials[trial_id].state and state == TrialState.RUNNING:", ["C04"]),
+    # ---- C08 -------------------------------------------------------------------------------
+    "cached-unfix-watermark-on-create": ("optuna/storages/_cached_storage.py",
+        "            if not frozen_trial.state.is_finished():\n                study.unfinished_trial_ids.add(trial_id)",
+        "            if frozen_trial.state.is_finished():\n                study.last_finished_trial_id = max(study.last_finished_trial_id, trial_id)\n            else:\n                study.unfinished_trial_ids.add(trial_id)", ["C08"]),
+    "cached-watermark-over-unfinished": ("optuna/storages/_cached_storage.py",
+        "                if not trial.state.is_finished():\n                    study.unfinished_trial_ids.add(trial._trial_id)\n                    continue\n",
+        "                if not trial.state.is_finished():\n                    study.unfinished_trial_ids.add(trial._trial_id)\n                    study.last_finished_trial_id = max(study.last_finished_trial_id, trial._trial_id)\n                    continue\n", ["C08"]),
+    "cached-get-trial-serves-unfinished-from-cache": ("optuna/storages/_cached_storage.py",
+        "        return study.trials[number] if trial_id not in study.unfinished_trial_ids else None",
+        "        return study.trials[number]", ["C08"]),
+    "grpc-cache-sort-by-id": ("optuna/storages/_grpc/client.py",
+        "            trials = list(sorted(trials.values(), key=lambda t: t.number))\n            return trials",
+        "            trials = list(sorted(trials.values(), key=lambda t: -t._trial_id))\n            return trials", ["C08"]),
+    "grpc-cache-keeps-finished-in-unfinished-set": ("optuna/storages/_grpc/client.py",
+        "        study.unfinished_trial_ids.discard(trial._trial_id)", "        pass", ["C08"]),
     # ---- C05 -------------------------------------------------------------------------------
     "file-unfix-torn-tail": ("optuna/storages/journal/_file.py",
         "            self._drop_unterminated_tail()\n", "", ["C05"]),
